@@ -70,8 +70,8 @@ func c09Run(c *mc.Ctx) {
 // c09SkipDecoders: decoder results backed by the buffered reader (valid until Release) and by the
 // io.Reader decoder's scratch buffer (valid until the next Next), with the co-tenant between operations.
 func c09SkipDecoders(c *mc.Ctx) {
-	nv := len(c02HistValues())
-	var seqs [][]int
+	nv := c02HistN
+	seqs := append([][]int{}, c02HugeSeqs...)
 	for a := 0; a < nv; a++ {
 		seqs = append(seqs, []int{a})
 		for b := 0; b < nv; b++ {
@@ -108,7 +108,7 @@ func c09SkipDecoders(c *mc.Ctx) {
 	c.R.Traces += n * 3
 	c.R.States += n
 	c.R.Distinct += n
-	c.Done("skip-decoder results: all sequences of <= 3 Next calls over 4 values of different size classes x {SkipDecoder over stream/bytes reader, ReaderSkipDecoder} x fragmentation x co-tenant mode, twice (pool reuse); results retained until Release / the next Next")
+	c.Done("skip-decoder results: all sequences of <= 3 Next calls over 6 values of different size classes (+ 7 sequences around a value > 1 MiB) x {SkipDecoder over stream/bytes reader, ReaderSkipDecoder} x fragmentation x co-tenant mode, twice (pool reuse); results retained until Release / the next Next")
 }
 
 func init() {
